@@ -305,6 +305,28 @@ def check_slow_case(case, st):
         st.violation('long-run:block-count', dict(d, got=len(MT.split_text(res.stdout))))
 
 
+# ---- a target that sends part of its identification string late and then stays silent, next to healthy targets: it costs one timeout
+def partial_cases():
+    out = []
+    for x in sorted(MT.FAILING_EXTRA):
+        for archs in ((x, 'CLEAN'), ('TERR', x, 'CLEAN'), (x, x)):
+            for threads in (1, 2):
+                for fmt in ('text', 'json'):
+                    out.append(('partial', archs, threads, fmt))
+    return out
+
+
+def check_partial_case(case, st):
+    _k, archs, threads, fmt = case
+    res, s = MT.run_multi(list(archs), threads, fmt, (), ('connect',))
+    st.execution(res.world, outcome=('partial', res.status, fmt, threads), root=case, nontrivial=case)
+    for sig, detail in check_run(list(archs), threads, fmt, res, s):
+        st.violation('partial-then-silent:' + sig.replace(':none', ''), {'archs': list(archs), 'threads': threads, 'fmt': fmt, 'what': detail, 'status': res.status,
+                                                                         'virtual_seconds': round(res.clock, 1)})
+    if not res.hang and res.clock > 16.0 * len(archs):
+        st.violation('partial-then-silent:target-costs-more-than-its-timeouts', {'archs': list(archs), 'threads': threads, 'virtual_seconds': round(res.clock, 1)})
+
+
 # ---- several services of ONE host (same name, different ports), healthy and failing ones mixed: each entry is answered by its own port
 def samehost_cases():
     out = []
@@ -487,6 +509,8 @@ def work(chunk, st):
             check_mode_case(case, st)
         elif case[0] == 'slow':
             check_slow_case(case, st)
+        elif case[0] == 'partial':
+            check_partial_case(case, st)
         elif case[0] == 'rate':
             check_rate_case(case, st)
         elif case[0] == 'samehost':
@@ -543,6 +567,7 @@ def cases(tier):
     out += rate_cases()
     out += samehost_cases()
     out += slow_cases()
+    out += partial_cases()
     out += mode_cases()
     return out
 
